@@ -28,6 +28,10 @@ CLAIMED["C02"] = dict(engine="E1", technique="symbolic execution of encoder + re
     text="Per (code, decoder) pair all messages x all error patterns of weight <= t are covered by one query per symbolic path (paths = syndromes for table decoders, 1 for exhaustive ML, feasible received words for Berlekamp-Massey whose front end concretises each bit). Complete decoders additionally get the minimum-distance clause over all 2^n received words and all 2^k competitors.",
     note="t from error_correction_capability or floor((d_adv-1)/2). Bounds: n <= 16 (23 for Golay as stretch), ML k <= 7; Berlekamp-Massey: mu=3 all (m,e), mu=4 with fixed codewords (solver only prunes by weight there: weakest use of the technique). ReedMullerDecoder(hard) is a listed known finding.",
     ref="DESIGN.md §4 C02")
+CLAIMED["C16"] = dict(engine="E1", technique="symbolic execution of the real metric classes on symbolic bit tensors and symbolic module counters; z3 (linear integer / pseudo-Boolean) decides value*total == error count; float()/item() conversions case-split over all feasible counts",
+    text="One-shot: BER/BLER/benchmark helpers equal the exact fraction for all bit tensors of the stated shapes, symmetric, zero iff equal, BER <= BLER <= min(1,B*BER). Streaming: for every history over {update(b0..b2), compute, reset} up to the stated length with fully symbolic batch contents, every compute() equals the one-shot value on the data since the last reset.",
+    note="History structures are enumerated (a stated bound) while all data is symbolic; results are float32 tensors, so equality is asserted within 2^-17 relative to the count (far below 1/N).",
+    ref="DESIGN.md §4 C16")
 NOT_YET = {}
 
 PENDING_REASON = "check not built yet in this round (planned: see DESIGN.md §8); not claimed until its check exists"
